@@ -367,4 +367,298 @@ theorem shared_write_interferes (h : Heap) (a b : Loc) (f g : String) (sh sh' : 
     Content.arr.injEq, List.cons.injEq, and_true, true_and] at this
   exact hv this.symm
 
+/-! ### derived-object constructors of `RDMs` (heap programs `ctorProducer`) -/
+
+/-- the multi-source form of `fresh_producer_sep`: a fresh producer leaves the labelled content
+    of *every* closed set of objects `srcs` unchanged (all arguments of `concat`, the receiver and
+    a sibling result, …) and its result is separated from all of them -/
+theorem fresh_producer_sep_side (d : Disc) (h : Heap) (a : Loc) (srcs : List Loc) (hc : Closed h srcs)
+    (p : Producer) (hp : p.fresh = true) :
+    contentSide (produce h a p).1 srcs = contentSide h srcs ∧
+    Inv d (produce h a p).1 srcs [(produce h a p).2] := by
+  simp only [Producer.fresh, Bool.and_eq_true, List.isEmpty_iff] at hp
+  obtain ⟨hw, hf⟩ := hp
+  obtain ⟨c, n, fs, hbf, b1, b2, b3⟩ :=
+    buildFields_fresh (fieldsOf (h.cells a)) p.fields hf h.cells h.next
+  have hprod : produce h a p = ({ cells := upd c n (.obj fs), next := n + 1 }, n) := by
+    simp [produce, hw, execAll, hbf]
+  rw [hprod]
+  simp only
+  have hold : ∀ l, l < h.next → upd c n (.obj fs) l = h.cells l := by
+    intro l hl
+    rw [upd_other (by omega), b2 l hl]
+  have hsrc : ∀ r ∈ srcs, content { cells := upd c n (.obj fs), next := n + 1 } r = content h r ∧
+      reach { cells := upd c n (.obj fs), next := n + 1 } r = reach h r ∧
+      wr d { cells := upd c n (.obj fs), next := n + 1 } r = wr d h r := by
+    intro r hr
+    apply content_congr
+    intro l hl
+    exact hold l (hc l (mem_reachSide.mpr ⟨r, hr, hl⟩))
+  have hreach : reachSide { cells := upd c n (.obj fs), next := n + 1 } srcs = reachSide h srcs := by
+    simp only [reachSide]
+    exact flatMap_congr_mem _ _ _ (fun r hr => (hsrc r hr).2.1)
+  have hwr : wrSide d { cells := upd c n (.obj fs), next := n + 1 } srcs = wrSide d h srcs := by
+    simp only [wrSide]
+    exact flatMap_congr_mem _ _ _ (fun r hr => (hsrc r hr).2.2)
+  have hrb : ∀ l ∈ reach { cells := upd c n (.obj fs), next := n + 1 } n, h.next ≤ l ∧ l < n + 1 := by
+    intro l hl
+    simp only [reach, upd_same, List.mem_cons, cellReach, fieldsOf, List.mem_flatMap] at hl
+    rcases hl with hl | ⟨q, hq, hl⟩
+    · omega
+    · have := b3 q hq l hl
+      omega
+  have hwrsub : ∀ l ∈ wrSide d h srcs, l ∈ reachSide h srcs := by
+    intro l hl
+    obtain ⟨r, hr, hl⟩ := mem_wrSide.mp hl
+    exact mem_reachSide.mpr ⟨r, hr, wr_subset_reach d h r l hl⟩
+  refine ⟨?_, ⟨?_, ?_⟩, ?_, ?_⟩
+  · simp only [contentSide]
+    exact List.map_congr_left (fun r hr => (hsrc r hr).1)
+  · intro l hl
+    rw [hwr] at hl
+    simp only [reachSide, List.flatMap_cons, List.flatMap_nil, List.append_nil]
+    intro hc2
+    have := hc l (hwrsub l hl)
+    have := hrb l hc2
+    omega
+  · intro l hl
+    simp only [wrSide, List.flatMap_cons, List.flatMap_nil, List.append_nil] at hl
+    rw [hreach]
+    intro hc2
+    have := hc l hc2
+    have := hrb l (wr_subset_reach d _ n l hl)
+    omega
+  · intro l hl
+    rw [hreach] at hl
+    have := hc l hl
+    show l < n + 1
+    omega
+  · intro l hl
+    simp only [reachSide, List.flatMap_cons, List.flatMap_nil, List.append_nil] at hl
+    exact (hrb l hl).2
+
+theorem heldCopies_fresh (h : Heap) (a : Loc) : ∀ q ∈ heldCopies h a, q.2.isFresh = true := by
+  intro q hq
+  simp only [heldCopies, List.mem_filterMap] at hq
+  obtain ⟨p, _, hq⟩ := hq
+  cases hf : p.2 with
+  | dict l => simp [hf] at hq
+  | arr shape els =>
+    simp only [hf] at hq
+    split at hq
+    · simp only [Option.some.injEq] at hq
+      subst hq
+      rfl
+    · simp at hq
+
+/-- **derived sharing graph**: whatever the source object, the selection, the other arguments —
+    every constructor of the family compiles to a producer that allocates each attribute of the
+    new object and writes nothing to a source (`Producer.fresh`) -/
+theorem ctor_fresh (h : Heap) (a : Loc) (c : Ctor) : (ctorProducer h a c).fresh = true := by
+  have hh := heldCopies_fresh h a
+  simp only [ctorProducer, Producer.fresh, List.isEmpty_nil, Bool.true_and, List.all_eq_true]
+  intro q hq
+  cases c <;>
+    simp only [ctorFields, rowSelect, patSelect, List.mem_append, List.mem_cons, List.mem_nil_iff,
+      or_false] at hq
+  all_goals first
+    | (rcases hq with (rfl | rfl | rfl | rfl) | hq
+       · rfl
+       · rfl
+       · rfl
+       · rfl
+       · exact hh q hq)
+    | (rcases hq with rfl | rfl | rfl | rfl <;> rfl)
+
+/-- **the property for the constructor family**: the call leaves the labelled content of the
+    receiver and of every other source object (`srcs`: the further arguments of `concat`, a
+    sibling result, …) unchanged, and in every later interleaved history of in-place operations
+    on the sources and on the new object no step on one side alters the other -/
+theorem ctor_safe (d : Disc) (h : Heap) (a : Loc) (c : Ctor) (srcs : List Loc) (hc : Closed h srcs)
+    (pre : List HStep) (s : HStep)
+    (hv : ∀ t ∈ pre ++ [s], ValidH srcs [(produce h a (ctorProducer h a c)).2] t) :
+    contentSide (produce h a (ctorProducer h a c)).1 srcs = contentSide h srcs ∧
+    (s.onA = true →
+      contentSide (runH d (produce h a (ctorProducer h a c)).1 (pre ++ [s])) [(produce h a (ctorProducer h a c)).2]
+        = contentSide (runH d (produce h a (ctorProducer h a c)).1 pre) [(produce h a (ctorProducer h a c)).2]) ∧
+    (s.onA = false →
+      contentSide (runH d (produce h a (ctorProducer h a c)).1 (pre ++ [s])) srcs
+        = contentSide (runH d (produce h a (ctorProducer h a c)).1 pre) srcs) := by
+  obtain ⟨h1, h2⟩ := fresh_producer_sep_side d h a srcs hc (ctorProducer h a c) (ctor_fresh h a c)
+  exact ⟨h1, frame_history d _ srcs [(produce h a (ctorProducer h a c)).2] h2 pre s hv⟩
+
+/-! ### what a fresh producer's result holds -/
+
+/-- the content a fresh attribute specification asks for -/
+def specContent : FieldSpec → Content
+  | .freshArr shape vals => .arr shape vals
+  | .freshDict d => .dict d
+  | .share _ => .dict []
+
+theorem writeVals_read (f : Loc → Cell) (n : Nat) (vals : List Val) :
+    (List.range' n vals.length).map (fun l => valOf (writeVals f (List.range' n vals.length) vals l))
+      = vals := by
+  induction vals generalizing f n with
+  | nil => simp
+  | cons v vs ih =>
+    simp only [List.length_cons, List.range'_succ, writeVals, List.map_cons, List.cons.injEq]
+    constructor
+    · rw [writeVals_other _ _ _ _ (by simp only [List.mem_range'_1]; omega), upd_same]
+      rfl
+    · exact ih (upd f n (.val v)) (n + 1)
+
+theorem readField_congr (c c' : Loc → Cell) (n n' : Nat) (f : Field)
+    (hc : ∀ x ∈ fieldLocs f, c' x = c x) :
+    readField { cells := c', next := n' } f = readField { cells := c, next := n } f := by
+  cases f with
+  | arr shape els =>
+    simp only [readField, Content.arr.injEq, true_and]
+    apply List.map_congr_left
+    intro l hl
+    rw [hc l (by simpa [fieldLocs] using hl)]
+  | dict l0 =>
+    simp only [readField, Content.dict.injEq]
+    rw [hc l0 (by simp [fieldLocs])]
+
+theorem buildFields_content (src : List (String × Field)) (specs : List (String × FieldSpec))
+    (hf : specs.all (fun q => q.2.isFresh) = true) (c : Loc → Cell) (n : Nat) :
+    ∃ c' n' fs, buildFields src c n specs = (c', n', fs) ∧ n ≤ n' ∧
+      (∀ l, l < n → c' l = c l) ∧ (∀ p ∈ fs, ∀ x ∈ fieldLocs p.2, n ≤ x ∧ x < n') ∧
+      fs.map (fun p => (p.1, readField { cells := c', next := n' } p.2))
+        = specs.map (fun q => (q.1, specContent q.2)) := by
+  induction specs generalizing c n with
+  | nil => exact ⟨c, n, [], rfl, Nat.le_refl n, fun _ _ => rfl, by simp, rfl⟩
+  | cons q rest ih =>
+    obtain ⟨name, spec⟩ := q
+    simp only [List.all_cons, Bool.and_eq_true] at hf
+    cases spec with
+    | share sf => simp [FieldSpec.isFresh] at hf
+    | freshArr shape vals =>
+      obtain ⟨c', n', fs, heq, h1, h2, h3, h4⟩ :=
+        ih hf.2 (writeVals c (List.range' n vals.length) vals) (n + vals.length)
+      refine ⟨c', n', (name, .arr shape (List.range' n vals.length)) :: fs, ?_, by omega, ?_, ?_, ?_⟩
+      · simp only [buildFields, heq]
+      · intro l hl
+        rw [h2 l (by omega)]
+        apply writeVals_other
+        simp only [List.mem_range'_1]
+        omega
+      · intro p hp x hx
+        simp only [List.mem_cons] at hp
+        rcases hp with hp | hp
+        · subst hp
+          simp only [fieldLocs, List.mem_range'_1] at hx
+          omega
+        · have := h3 p hp x hx
+          omega
+      · rw [List.map_cons, List.map_cons, h4]
+        congr 1
+        simp only [readField, specContent, Prod.mk.injEq, Content.arr.injEq, true_and]
+        refine Eq.trans ?_ (writeVals_read c n vals)
+        apply List.map_congr_left
+        intro l hl
+        simp only [List.mem_range'_1] at hl
+        rw [h2 l (by omega)]
+    | freshDict d =>
+      obtain ⟨c', n', fs, heq, h1, h2, h3, h4⟩ := ih hf.2 (upd c n (.dict d)) (n + 1)
+      refine ⟨c', n', (name, .dict n) :: fs, ?_, by omega, ?_, ?_, ?_⟩
+      · simp only [buildFields, heq]
+      · intro l hl
+        rw [h2 l (by omega)]
+        exact upd_other (by omega)
+      · intro p hp x hx
+        simp only [List.mem_cons] at hp
+        rcases hp with hp | hp
+        · subst hp
+          simp only [fieldLocs, List.mem_singleton] at hx
+          omega
+        · have := h3 p hp x hx
+          omega
+      · rw [List.map_cons, List.map_cons, h4]
+        congr 1
+        simp only [readField, specContent, Prod.mk.injEq, Content.dict.injEq, true_and]
+        rw [h2 n (by omega), upd_same]
+        rfl
+
+/-- **the result holds exactly what was specified**: the labelled content of the object a fresh
+    producer returns is, attribute by attribute, the content its specification lists — so for the
+    constructor family the content computed by `ctorFields` *is* what a reader of the new object
+    sees (the driver sends it to the harness, which compares it with the real result) -/
+theorem produce_content_fresh (h : Heap) (a : Loc) (p : Producer) (hp : p.fresh = true) :
+    content (produce h a p).1 (produce h a p).2 = p.fields.map (fun q => (q.1, specContent q.2)) := by
+  simp only [Producer.fresh, Bool.and_eq_true, List.isEmpty_iff] at hp
+  obtain ⟨hw, hf⟩ := hp
+  obtain ⟨c, n, fs, hbf, b1, b2, b3, b4⟩ :=
+    buildFields_content (fieldsOf (h.cells a)) p.fields hf h.cells h.next
+  have hprod : produce h a p = ({ cells := upd c n (.obj fs), next := n + 1 }, n) := by
+    simp [produce, hw, execAll, hbf]
+  rw [hprod]
+  simp only [content, upd_same, fieldsOf]
+  rw [← b4]
+  apply List.map_congr_left
+  intro q hq
+  simp only [Prod.mk.injEq, true_and]
+  apply readField_congr
+  intro x hx
+  have := b3 q hq x hx
+  exact upd_other (by omega)
+
+theorem ctor_content (h : Heap) (a : Loc) (c : Ctor) :
+    content (produce h a (ctorProducer h a c)).1 (produce h a (ctorProducer h a c)).2
+      = (ctorFields h a c).map (fun q => (q.1, specContent q.2)) :=
+  produce_content_fresh h a (ctorProducer h a c) (ctor_fresh h a c)
+
+/-- two objects (a first argument and a second one with the conditions in another order) -/
+def twoHeap : Heap :=
+  { cells := fun l => match l with
+      | 0 => .obj [("dissimilarities", .arr [2, 3] [1, 2, 3, 14, 15, 16]), ("descriptors", .dict 4),
+                   ("rdm_descriptors", .dict 5), ("pattern_descriptors", .dict 6)]
+      | 1 => .val "1.0" | 2 => .val "2.0" | 3 => .val "-3.0"
+      | 14 => .val "4.0" | 15 => .val "5.0" | 16 => .val "6.0"
+      | 4 => .dict [("subj", ["7"])]
+      | 5 => .dict [("name", ["r0", "r1"]), ("index", ["0", "1"])]
+      | 6 => .dict [("cond", ["b", "a", "c"]), ("cat", ["0", "1", "0"]), ("index", ["0", "1", "2"])]
+      | 7 => .obj [("dissimilarities", .arr [1, 3] [8, 9, 10]), ("descriptors", .dict 11),
+                   ("rdm_descriptors", .dict 12), ("pattern_descriptors", .dict 13)]
+      | 8 => .val "7.0" | 9 => .val "8.0" | 10 => .val "9.0"
+      | 11 => .dict []
+      | 12 => .dict [("name", ["x"]), ("index", ["0"])]
+      | 13 => .dict [("cond", ["a", "b", "c"]), ("cat", ["1", "0", "0"]), ("index", ["0", "1", "2"])]
+      | _ => .free,
+    next := 17 }
+
+theorem twoHeap_closed : Closed twoHeap [0, 7] := by
+  intro l hl
+  have : l ∈ [0, 1, 2, 3, 14, 15, 16, 4, 5, 6, 7, 8, 9, 10, 11, 12, 13] := by
+    simpa [reachSide, reach, cellReach, fieldsOf, twoHeap, fieldLocs] using hl
+  simp only [List.mem_cons, List.mem_nil_iff, or_false] at this
+  show l < 17
+  omega
+
+/-- non-vacuity of `ctor_safe` and a check of the content arithmetic on concrete objects:
+    `rdms[[1]]`, `subset_pattern('cond', ['c','b'])` (b–c is the third pair of b,a,c),
+    `subsample_pattern('cond', ['b','b','c'])` (NaN where a pattern meets itself) and
+    `concat(first, second)` (the second argument's vectors re-ordered a,b,c → b,a,c: its pairs
+    (a,b),(a,c),(b,c) = 7,8,9 become (b,a),(b,c),(a,c) = 7,9,8) -/
+example :
+    let g := produce twoHeap 0 (ctorProducer twoHeap 0 (.getitem [1]))
+    let sp := produce twoHeap 0 (ctorProducer twoHeap 0 (.subsetPattern "cond" ["c", "b"]))
+    let ss := produce twoHeap 0 (ctorProducer twoHeap 0 (.subsamplePattern "cond" ["b", "b", "c"]))
+    let cc := produce twoHeap 0 (ctorProducer twoHeap 0
+      (.concat [7] none [] [("name", ["r0", "r1", "x"]), ("index", ["0", "1", "2"])]))
+    readArr g.1 g.2 "dissimilarities" = ([1, 3], ["4.0", "5.0", "6.0"]) ∧
+    readDict g.1 g.2 "rdm_descriptors" = [("name", ["r1"]), ("index", ["1"])] ∧
+    readArr sp.1 sp.2 "dissimilarities" = ([2, 1], ["2.0", "5.0"]) ∧
+    readDict sp.1 sp.2 "pattern_descriptors" = [("cond", ["b", "c"]), ("cat", ["0", "0"]), ("index", ["0", "2"])] ∧
+    readArr ss.1 ss.2 "dissimilarities" = ([2, 3], ["nan", "2.0", "2.0", "nan", "5.0", "5.0"]) ∧
+    readArr cc.1 cc.2 "dissimilarities"
+      = ([3, 3], ["1.0", "2.0", "-3.0", "4.0", "5.0", "6.0", "7.0", "9.0", "8.0"]) ∧
+    sepB .rebind cc.1 [0, 7] [cc.2] = true ∧ sepB .assignInto cc.1 [0, 7] [cc.2] = true ∧
+    contentSide cc.1 [0, 7] = contentSide twoHeap [0, 7] := by
+  decide +kernel
+
+example (d : Disc) (c : Ctor) :
+    Inv d (produce twoHeap 0 (ctorProducer twoHeap 0 c)).1 [0, 7] [(produce twoHeap 0 (ctorProducer twoHeap 0 c)).2] :=
+  (fresh_producer_sep_side d twoHeap 0 [0, 7] twoHeap_closed _ (ctor_fresh twoHeap 0 c)).2
+
 end Rsa.Props.C12
